@@ -292,9 +292,11 @@ def replay_reward(case):
     if k == "raise": raise Mismatch("rewards:%s:new:raises" % cls, "the constructor raised %s: %s" % (type(robj).__name__, robj))
     check_table(robj, r, table, "after the constructor")
     n = 1
+    cur = r
     for i, st in enumerate(steps[1:], 1):
-        robj = reward_step(robj, r, st, steps[0])
-        check_table(robj, r, table, "after step %d (%s)" % (i, st["op"]))
+        robj = reward_step(robj, cur, st, steps[0])
+        if st["op"] in NORMAL_AFTER: cur = st["obs"]["now"]           # the abstract object the copy must be
+        check_table(robj, cur, table, "after step %d (%s)" % (i, st["op"]))
         n += 1
     return n
 
@@ -632,7 +634,7 @@ def replay_batch(case):
     return n
 
 
-REPLAY = {"rewards": replay_reward, "rhist": replay_reward, "pairs": replay_pair, "rows": replay_row, "inter": replay_inter, "base": replay_base, "batch": replay_batch}
+REPLAY = {"rewards": replay_reward, "rewards2": replay_reward, "rhist": replay_reward, "pairs": replay_pair, "rows": replay_row, "inter": replay_inter, "base": replay_base, "batch": replay_batch}
 
 # op of a printed step -> the action of Primitives.tla it is
 ACTION = {"rewards": {"new": "NewReward", "call": "CallOne", "repr": "ReprOf", "hash": "HashOf", "eqself": "EqSelf", "eqplain": "EqPlain", "props": "PropsOf", "pickle": "Pickle", "json": "Json", "deepcopy": "DeepCopy"},
@@ -642,31 +644,26 @@ ACTION = {"rewards": {"new": "NewReward", "call": "CallOne", "repr": "ReprOf", "
           "inter": {"new": "NewInter", "items": "ItemsOf", "pickle": "InterPickle", "deepcopy": "InterCopy", "classify": "InterClass", "callentry": "CallEntry"},
           "base": {"new": "NewBase", "params": "ParamsOf", "str": "StrOfBase", "unimplemented": "Unimpl", "abstract": "Abstract"},
           "batch": {"new": "NewBatch", "callbatch": "CallBatch", "is_batch": "IsBatchOf"}}
-ACTION["rhist"] = ACTION["rewards"]
+ACTION["rhist"] = ACTION["rewards2"] = ACTION["rewards"]
+ACTION["values4"] = ACTION["values"]
 ALL_ACTIONS = sorted({a for d in ACTION.values() for a in d.values()})
 
-GUARDS = [("dup_last", "DiscreteReward answers with the LAST of several equal actions", "rewards", 0, {"FirstOfDuplicates"}),
-          ("eq_by_rewards", "two DiscreteRewards are equal as soon as their reward lists are (BinaryRewards: their argmax)", "pairs", 1, {"Extensional", "EqTransitive"}),
-          ("literal_all", "every reward function pickles itself as the repr of its arguments", "rewards", 1, {"PickleTotal"}),
-          ("stale_hash", "the cached hash of HashableDense / HashableSparse travels with the pickle", "values", 3, {"HashFollowsEq", "LookupFindsEqual"}),
-          ("hamming_sum", "Hamming's union is |argmax| + |labels|", "rewards", 0, {"HammingOnSets"})]
+GUARDS = [("dup_last", "DiscreteReward answers with the LAST of several equal actions", "rhist", {"FirstOfDuplicates"}),
+          ("eq_by_rewards", "two DiscreteRewards are equal as soon as their reward lists are (BinaryRewards: their argmax)", "pairs", {"Extensional", "EqTransitive"}),
+          ("literal_all", "every reward function pickles itself as the repr of its arguments", "rhist", {"PickleTotal"}),
+          ("stale_hash", "the cached hash of HashableDense / HashableSparse travels with the pickle", "values", {"HashFollowsEq", "LookupFindsEqual"}),
+          ("hamming_sum", "Hamming's union is |argmax| + |labels|", "rhist", {"HammingOnSets"})]
 
 
-def configs(ctx):
-    q = ctx.quick
-    return [dict(name="rewards", sec="rewards", size=ctx.pick("quick", "thorough"), ops=1)] + \
-           ([] if q else [dict(name="rewards2", sec="rewards", size="quick", ops=2)]) + \
-           [dict(name="rhist", sec="rhist", size="quick", ops=ctx.pick(2, 3)),
-            dict(name="pairs", sec="pairs", size=ctx.pick("quick", "thorough"), ops=1),
-            dict(name="values", sec="values", size=ctx.pick("quick", "thorough"), ops=ctx.pick(3, 4)),
-            dict(name="rows", sec="rows", size="quick", ops=ctx.pick(2, 3)),
-            dict(name="inter", sec="inter", size="quick", ops=ctx.pick(1, 2)),
-            dict(name="base", sec="base", size="quick", ops=ctx.pick(2, 3)),
-            dict(name="batch", sec="batch", size="quick", ops=ctx.pick(1, 2))]
+ALL_SECTIONS = ["rewards", "rhist", "pairs", "values", "rows", "inter", "base", "batch"]
 
 
-def subst(sec, size, ops, variant="ok"):
-    return {'Section = "rewards"': 'Section = "%s"' % sec, 'Size = "quick"': 'Size = "%s"' % size, "MaxOps = 1": "MaxOps = %d" % ops, 'Variant = "ok"': 'Variant = "%s"' % variant}
+def sections(ctx): return ALL_SECTIONS + ([] if ctx.quick else ["rewards2", "values4"])
+
+
+def subst(secs, size, variant="ok"):
+    return {'Sections = {"rewards", "rhist", "pairs", "values", "rows", "inter", "base", "batch"}': "Sections = {%s}" % ", ".join('"%s"' % x for x in secs),
+            'Size = "quick"': 'Size = "%s"' % size, 'Variant = "ok"': 'Variant = "%s"' % variant}
 
 
 def case_key(j): return json.dumps(j["steps"], sort_keys=True)
@@ -674,20 +671,20 @@ def case_key(j): return json.dumps(j["steps"], sort_keys=True)
 
 def run(ctx):
     from .. import tlc, tracecheck
-    C = configs(ctx)
+    SECS = sections(ctx)
+    C = [dict(name=x, sec=x) for x in SECS]
 
-    # ---- 1. TLC: the oracle, its laws, its broken variants ----
+    # ---- 1. TLC: the oracle, its laws, its broken variants (all sections in one run, one run per broken variant) ----
     def tlc_job(job):
         name, sub, guard = job
         cfg = tracecheck._cfg("Primitives.cfg", sub, ctx.scratch, "prim_%s.cfg" % name)
-        return name, tlc.run("Primitives", cfg, ctx.scratch, workers=1 if guard else ctx.pick(3, 4), timeout=ctx.pick(300, 1100), heap="6g", seed=ctx.seed)
-    jobs = [(c["name"], subst(c["sec"], c["size"], c["ops"]), False) for c in C]
-    jobs += [("guard-" + g, subst(sec, "quick", ops, g), True) for g, _, sec, ops, _ in GUARDS]
-    jobs.sort(key=lambda j: 0 if j[0] in ("rewards", "values", "pairs", "rewards2", "rhist") else 1)
-    with ThreadPoolExecutor(max_workers=ctx.pick(4, 3)) as ex:
+        return name, tlc.run("Primitives", cfg, ctx.scratch, workers=1 if guard else 8, timeout=ctx.pick(300, 1100), heap="2g" if guard else ctx.pick("6g", "12g"), seed=ctx.seed)
+    jobs = [("main", subst(SECS, ctx.pick("quick", "thorough")), False)]
+    jobs += [("guard-" + g, subst([sec], "quick", g), True) for g, _, sec, _ in GUARDS]
+    with ThreadPoolExecutor(max_workers=6) as ex:
         results = dict(ex.map(tlc_job, jobs))
     rejected = {}
-    for g, what, sec, ops, expect in GUARDS:
+    for g, what, sec, expect in GUARDS:
         r = results["guard-" + g]
         ctx.add_tlc("Primitives guard " + g, r)
         names = {v["name"] for v in r.violations}
@@ -695,17 +692,26 @@ def run(ctx):
             raise RuntimeError("the broken design %r (%s) is not rejected by any of %s (violated: %s): the invariants are vacuous" % (g, what, sorted(expect), sorted(names)))
         rejected[g] = sorted(names)
     ctx.extra["guards_rejected"] = rejected
+    r = results["main"]
+    ctx.add_tlc("Primitives " + "+".join(SECS), r)
+    for v in r.violations:
+        ctx.violation("spec:%s" % (v["name"] or v["kind"]), "Primitives.tla itself violates %s" % v["name"], v["trace"][:60])
+    r.out = ""
+    tables = {}                                    # the call table of a reward function is printed once, where it is constructed
+    bysec = {c["sec"]: {} for c in C}
+    for j in r.json:
+        if not isinstance(j, dict) or j.get("sec") not in bysec: continue
+        if "table" in j: tables[json.dumps(j["reward"], sort_keys=True)] = j["table"]
+        elif "steps" in j: bysec[j["sec"]].setdefault(case_key(j), j)
+    r.json = []
     cases = {}
     for c in C:
-        r = results[c["name"]]
-        ctx.add_tlc("Primitives " + c["name"], r)
-        for v in r.violations:
-            ctx.violation("spec:%s" % (v["name"] or v["kind"]), "Primitives.tla (%s) itself violates %s" % (c["name"], v["name"]), v["trace"][:60])
-        seen = {}
-        for j in r.json:
-            if isinstance(j, dict) and j.get("sec") == c["sec"] and "steps" in j: seen.setdefault(case_key(j), j)
+        seen = bysec.pop(c["sec"])
         cases[c["name"]] = [seen[k] for k in sorted(seen)]
         if len(cases[c["name"]]) < 20: raise RuntimeError("Primitives %s produced only %d behaviours" % (c["name"], len(cases[c["name"]])))
+        if c["sec"] in ("rewards", "rewards2", "rhist"):
+            for j in cases[c["name"]]:
+                j["table"] = tables[json.dumps(j["steps"][0]["arg"], sort_keys=True)] if j["steps"][0]["obs"] == "ok" else []
     ctx.exhaustive = True
     ctx.extra["behaviours"] = {k: len(v) for k, v in cases.items()}
 
@@ -720,7 +726,7 @@ def run(ctx):
         for st in j["steps"]: taken[ACTION[c["sec"]][st["op"]]] += 1
 
     for c in C:
-        if c["sec"] == "values": continue
+        if c["sec"] in ("values", "values4"): continue
         fn = REPLAY[c["sec"]]
         for j in cases[c["name"]]:
             ctx.case(case_key(j)); count(c, j)
@@ -732,8 +738,9 @@ def run(ctx):
         ctx.extra.setdefault("seconds_replay", {})[c["name"]] = round(__import__("time").time() - ctx.t0, 1)
 
     # ---- values: the part of a behaviour after `transport` runs in a python process with another hash salt ----
+    pending_all = 0
     for c in C:
-        if c["sec"] != "values": continue
+        if c["sec"] not in ("values", "values4"): continue
         pending = []
         for idx, j in enumerate(cases[c["name"]]):
             ctx.case(case_key(j)); count(c, j)
@@ -743,9 +750,10 @@ def run(ctx):
                 if r[0] == "transport": pending.append((idx, r[1], j["steps"], r[2]))
             except Mismatch as m:
                 ctx.violation(m.sig, m.what, j)
-        ctx.extra["behaviours_continued_in_other_process"] = len(pending)
+        pending_all += len(pending)
+        ctx.extra["behaviours_continued_in_other_process"] = pending_all
         if pending:
-            fin, fout = os.path.join(ctx.scratch, "transport_in.pkl"), os.path.join(ctx.scratch, "transport_out.json")
+            fin, fout = os.path.join(ctx.scratch, "transport_in_%s.pkl" % c["name"]), os.path.join(ctx.scratch, "transport_out_%s.json" % c["name"])
             pickle.dump(pending, open(fin, "wb"))
             env = dict(os.environ); env["PYTHONHASHSEED"] = "1"      # this process runs with 0
             assert os.environ.get("PYTHONHASHSEED") == "0", "the check must run with PYTHONHASHSEED=0 (./check sets it)"
@@ -761,7 +769,7 @@ def run(ctx):
     # ---- 3. the binding is not vacuous: one corrupted observation / table entry per section must be noticed ----
     def corrupted(sec, j):
         j = copy.deepcopy(j)
-        if sec in ("rewards", "rhist") and j["table"]:
+        if sec in ("rewards", "rewards2", "rhist") and j["table"]:
             e = j["table"][len(j["table"]) // 2][1]
             if e["t"] == "q": e["n"], e["d"] = e["n"] + 1, e["d"] + 1
             elif e["t"] == "inf": e["t"] = "int"; e["v"] = 3
@@ -776,12 +784,12 @@ def run(ctx):
             if sec == "rows" and st["op"] == "eq": st["obs"] = not st["obs"]; return j
             if sec == "base" and st["op"] == "params": st["obs"] = st["obs"] + [["zz", {"t": "int", "v": 1}]]; return j
             if sec == "batch" and st["op"] == "is_batch": st["obs"] = not st["obs"]; return j
-            if sec == "values" and st["op"] == "eq": st["obs"] = not st["obs"]; return j
+            if sec in ("values", "values4") and st["op"] == "eq": st["obs"] = not st["obs"]; return j
         return None
     for c in C:
         pool = cases[c["name"]]
         done = False
-        fn = replay_value if c["sec"] == "values" else REPLAY[c["sec"]]
+        fn = replay_value if c["sec"] in ("values", "values4") else REPLAY[c["sec"]]
         for j in (pool[rng.randrange(len(pool))] for _ in range(400)):
             bad = corrupted(c["sec"], j)
             if bad is None: continue
@@ -795,13 +803,13 @@ def run(ctx):
     ctx.extra["corrupted_cases_noticed"] = corrupt_seen
 
     # ---- 4. coverage: every action of the spec was taken in a replayed behaviour, both pickle forms occurred ----
-    missing = [a for a in ALL_ACTIONS if taken[a] == 0]
+    missing = [a for a in ALL_ACTIONS if taken[a] == 0]      # (counted over the behaviours handed to the replay)
     if missing: raise RuntimeError("actions of Primitives.tla never exercised: %s" % missing)
     ctx.extra["steps_per_action"] = dict(sorted(taken.items()))
     ctx.extra["getstate_forms"] = {"%s %s %s" % k: v for k, v in sorted(FORMS.items())}
     for cls in ("BinaryReward", "HammingReward", "DiscreteReward"):
         for form in ("text", "raw"):
-            if not FORMS[(cls, "pickle", form)]: raise RuntimeError("no %s was pickled in its %s form" % (cls, form))
+            if not FORMS[(cls, "pickle", form)] and not ctx.viol: raise RuntimeError("no %s was pickled in its %s form" % (cls, form))
     ctx.traces += sum(len(v) for v in cases.values())
     ctx.extra["steps_compared"] = steps_total
     ctx.assumptions += [
